@@ -6,7 +6,7 @@ From Coq Require Import List NArith ZArith Bool Permutation.
 Import ListNotations.
 Require Import Verif.Lib.Wire Verif.Gen.Facts_C18 Verif.Model.C18.
 Require Import Verif.Proofs.C18_kahn Verif.Proofs.C18_build Verif.Proofs.C18 Verif.Proofs.C18_rep Verif.Proofs.C18_cycle.
-Require Import Verif.Proofs.C18_gen.
+Require Import Verif.Proofs.C18_gen Verif.Proofs.C18_derivers.
 
 (* the emission loop never runs out of fuel and never looks up a deleted node *)
 Theorem C18_sorted_total : forall s, sorted s <> Internal.
@@ -249,3 +249,12 @@ Theorem C18_gen_derivers_nesting : forall s h,
     trace h = map (fun nf => Enter (fst nf)) all ++ [Call] ++ map (fun nf => Exit (fst nf)) (rev all).
 Proof. exact gen_derivers_nesting. Qed.
 Print Assumptions C18_gen_derivers_nesting.
+
+(* the user's callable innermost: after ANY add_view_deriver calls on top of the stock
+   pipeline (user derivers, replaced stock derivers incl. mapped_view, hints as names,
+   sentinels or iterables of alternatives), a successfully sorted pipeline has every other
+   deriver outside mapped_view *)
+Theorem C18_derivers_mapped_innermost : forall adds l,
+  sorted (fst (derivers_scenario adds)) = Sorted l -> mapped_innermost (map fst l) = true.
+Proof. exact derivers_mapped_innermost. Qed.
+Print Assumptions C18_derivers_mapped_innermost.
